@@ -75,6 +75,12 @@ def view(fx, path, depth=9, extra_stop=(), threaded=True):
     if k not in _cache:
         import thread
         v = inline.inlined(fx, f, depth, stop=tuple(sorted(st)))
+        # closures that travel through generic helper parameters become known once the helper is inlined
+        for _round in range(3):
+            if not inline.resolve_closures(fx, v):
+                break
+            v = inline.inlined(fx, v, 4, stop=tuple(sorted(st)))
+        inline.resolve_closures(fx, v)
         _cache[k] = thread.threaded(v) if threaded else v
     return _cache[k]
 
